@@ -94,9 +94,12 @@ def normalise(prog):
             # changed signature as well (an out-parameter instead of a result, borrowed instead
             # of owned arguments): accepted only on caller evidence -- exactly one new function
             # of the scope is called by a function that used to call the old name, the old name
-            # is gone, and no other missing function of the scope competes for it
+            # is gone, the two names share a word (`get_expired_clients` / `drain_expired`), and no other
+            # missing function of the scope competes for it
             others_missing = [o for o in missing if o != old and scope_of(o) == scope_of(old)]
-            by_callers = [new for new in new_by_scope.get(scope_of(old), []) if new not in used and _called_by_old_callers(prog, rec, old, new)]
+            def _tokens(n):
+                return {w for w in re.split(r"[_:]+", n.rsplit("::", 1)[-1].lower()) if len(w) >= 5}
+            by_callers = [new for new in new_by_scope.get(scope_of(old), []) if new not in used and (_tokens(old) & _tokens(new)) and _called_by_old_callers(prog, rec, old, new)]
             if len(by_callers) == 1 and not others_missing:
                 aliases.append((old, by_callers[0], 0.0))
                 used.add(by_callers[0])
